@@ -203,10 +203,18 @@ fn sub_candidates(a: &RefAuto, p: &str, probes: &Probes) -> Expected {
             }
         }
         if let Some((_, c)) = levels.into_iter().next() {
+            let has_proper = c.iter().any(|x| x != p);
             for x in c {
-                // the typed text itself (an item typed completely) may be offered or not
+                // the typed text itself (an item typed completely): when longer values extending
+                // it are offered at this point it is one of "the allowed values that extend it"
+                // and must be offered too (else the shell would force the longer one); when it is
+                // the only one, it may be offered or not
                 if x == p {
-                    e.may.insert(x);
+                    if has_proper && !r.is_empty() {
+                        partial.insert(x);
+                    } else {
+                        e.may.insert(x);
+                    }
                 } else if r.is_empty() {
                     consumed.insert(x);
                 } else {
